@@ -64,11 +64,24 @@ Proof. exact missing_required_invariant. Qed.
 Print Assumptions C10_missing_required_invariant.
 
 (* the whole command: binary, symbol file, listing files, or the diagnostics in emitter order -- for every project and
-   every (deterministic) code generator working on the parse tree *)
-Theorem C10_binary_invariant : forall stem codegen pi pi', valid pi -> valid pi' ->
+   every (deterministic) code generator working on the parse tree that performs its one hash iteration (the children
+   of an import scope) through the callback it is given *)
+Theorem C10_binary_invariant : forall stem codegen, uses_callback_extensionally codegen ->
+  forall pi pi', valid pi -> valid pi' ->
   forall p main, build sites stem codegen pi p main = build sites stem codegen pi' p main.
-Proof. exact (build_invariant sites (conj eq_refl (conj eq_refl (conj eq_refl eq_refl)))). Qed.
+Proof. exact (build_invariant sites (conj eq_refl (conj eq_refl (conj eq_refl (conj eq_refl eq_refl))))). Qed.
 Print Assumptions C10_binary_invariant.
+
+(* the out-of-fuel results of the model are never produced: the work-list loop ends within 1 + (number of import
+   statements) iterations, whatever the iteration order (so the theorems above are about real results) *)
+Theorem C10_parse_never_out_of_fuel : forall k pi, valid pi -> forall p main, parse k pi p main <> ParseOutOfFuel.
+Proof. exact parse_never_out_of_fuel. Qed.
+Print Assumptions C10_parse_never_out_of_fuel.
+
+Theorem C10_build_never_out_of_fuel : forall sc stem codegen pi, valid pi -> forall p main,
+  build sc stem codegen pi p main <> BuildOutOfFuel.
+Proof. exact build_never_out_of_fuel. Qed.
+Print Assumptions C10_build_never_out_of_fuel.
 
 (* ---- what each repaired site did before (the model's other variant): the defects, and the strongest guarded statements *)
 
@@ -126,3 +139,10 @@ Example C10_parse_example :
   | ParseOutOfFuel => False
   end.
 Proof. vm_compute. split; reflexivity. Qed.
+(* a code generator that really uses its callback (it reports the first clash of an `import *` with two defined names)
+   meets the hypothesis of C10_binary_invariant *)
+Example C10_callback_codegen_example :
+  uses_callback_extensionally
+    (fun f st => mkCg (match export_loop [[97]%N; [98]%N] (f 0%nat [([97]%N, 3%nat); ([98]%N, 4%nat)]) (1, 2)%N [] with
+                       | inl _ => [] | inr d => [d] end) [] [] (Node 0 None []) []).
+Proof. intros f f' H st. rewrite H. reflexivity. Qed.
